@@ -82,7 +82,7 @@ func (k Keeper) setUndelegationsToMature(
 // epoch and then by the record key's bytes.
 func (k Keeper) GetAllUndelegationsToMature(ctx sdk.Context) []types.EpochToUndelegationRecordKeys {
 	store := ctx.KVStore(k.storeKey)
-	iterator := sdk.KVStorePrefixIterator(store, []byte{types.OptOutsToFinishBytePrefix})
+	iterator := sdk.KVStorePrefixIterator(store, []byte{types.UnbondingReleaseMaturityBytePrefix})
 	defer iterator.Close()
 
 	res := []types.EpochToUndelegationRecordKeys{}
